@@ -144,6 +144,11 @@ IdBinds == {
   BId("id_empty", GoO("ident", GoS("")), ""),
   BId("id_dot", GoO("identifier", GoS("a.b")), "a.b"),
   BId("id_dq", GoO("ident", GoS("a\"b")), "a\"b"),
+  \* names that START with a double quote and contain another one: a bound name is a value, not InfluxQL text to unquote
+  BId("id_quoted", GoO("ident", GoS("\"cpu\"")), "\"cpu\""),
+  BId("id_quoted_tail", GoO("identifier", GoS("\"cpu\" where host = 'a'")), "\"cpu\" where host = 'a'"),
+  BId("id_quoted_path", GoO("ident", GoS("\"db\".\"rp\".\"m\"")), "\"db\".\"rp\".\"m\""),
+  BId("id_sq", GoO("ident", GoS("'x'")), "'x'"),
   BId("id_fn", GoO("ident", GoS("mean")), "mean"),
   BId("id_utf8", GoO("ident", GoS("é")), "é"),
   BId("id_time", GoO("ident", GoS("time")), "time"),
@@ -169,7 +174,7 @@ QuickIds == {"str_hello", "str_empty", "str_inject", "str_cm_open", "str_cm_clos
   "str_bs_sq", "str_cr", "str_semi", "str_dashes", "str_tzname", "ostr_inject", "f_1_5", "f_3", "f_1e21", "f_1e_7", "f_neg", "f_inf", "of_number_int", "j_float",
   "i_7", "i_0", "i_neg", "i_max", "i_min", "oi_integer", "j_int", "b_true", "b_false", "d_10s", "d_2h", "d_1h30m", "d_neg", "d_frac", "d_xx",
   "d_empty", "d_nounit", "d_inject", "di_1500ms", "di_min", "dj_90s", "re_a", "re_slash", "re_bs_slash", "re_bsbs_slash", "re_empty", "re_lf", "re_quote", "re_bad", "id_x", "id_sp",
-  "id_kw", "id_empty", "id_dq", "id_inject", "unbound", "noset", "x_int", "x_nil", "x_slice", "x_value", "o_two", "o_zero", "o_unknown", "o_ident_int",
+  "id_kw", "id_empty", "id_dq", "id_quoted", "id_quoted_tail", "id_inject", "unbound", "noset", "x_int", "x_nil", "x_slice", "x_value", "o_two", "o_zero", "o_unknown", "o_ident_int",
   "o_int_str", "o_dur_bool", "j_exp", "j_big", "oj_int_float"}
 SecondIds == {"str_inject", "str_hello", "i_7", "i_neg", "f_1_5", "b_true", "d_2h", "re_a", "id_x", "id_kw", "unbound", "x_int"}
 
